@@ -172,15 +172,52 @@ def check_history(p, inp, rng):
         p.check(tuple(r[0]) == tuple(r[2]), 'direct-history-dependent', 'history', ci, list(r[2]), list(r[0]), call)
 
 
+def same_digits_in_several_classes(p, rng, inp):
+    """the SAME digits held in different classes (37.3 as HP, as decimal degrees, as gradians) are different angles: each call gives the
+    result of its own decimal-degree values, whichever class saw those digits first"""
+    import geodepy.angles as A
+    ell = ell_of(inp)
+    la = float(f'{"-" if rng.random() < 0.5 else ""}{rng.randrange(0, 80)}.{rng.randrange(60):02}{rng.randrange(60):02}')
+    lo = float(f'{rng.randrange(0, 170)}.{rng.randrange(60):02}{rng.randrange(60):02}')
+    az = float(f'{rng.randrange(0, 359)}.{rng.randrange(60):02}{rng.randrange(60):02}')
+    order = [('HP', A.HPAngle), ('DEC', A.DECAngle), ('GON', A.GONAngle), ('HP', A.HPAngle)]
+    rng.shuffle(order)
+    for cls, mk in order:
+        try:
+            objs = (mk(la), mk(lo), mk(az))
+            decs = tuple(o.dec() for o in objs)
+            if not (-90 <= decs[0] <= 90):
+                continue
+        except Exception:  # noqa
+            continue
+        ci = dict(inp, cls=cls, digits=[la, lo, az])
+        call = f"vincdir({cls}({la!r}), {cls}({lo!r}), {cls}({az!r}), {inp['dist']!r}, ...) vs the call with their .dec() values"
+        p.case('angle_args_same_digits:' + cls, ci, True)
+        ok, r = p.guarded(f'direct-angle-args:{cls}', 'angle_args', ci, lambda: G.vincdir(*objs, inp['dist'], ell), call)
+        if not ok:
+            continue
+        ok, e = p.guarded('direct-raises', 'angle_args', ci, lambda: G.vincdir(*decs, inp['dist'], ell), call)
+        if ok:
+            p.check(tuple(r) == tuple(e), f'direct-angle-args:{cls}', 'angle_args', ci, list(r), list(e), call)
+
+
 def worker(sub, idx, nchunks, n_lines, n_angle):
     rng = sub.rng
     for _ in range(n_lines):
         inp = gen_line(rng)
+        if rng.random() < 0.12:
+            # whole-number start latitudes one after the other with everything else equal (-1 and -2 hash alike in CPython)
+            inp['lat1'] = rng.choice([-1.0, -1])
+            check_line(sub, inp)
+            check_line(sub, dict(inp, lat1=rng.choice([-2.0, -2])))
+            continue
         check_line(sub, inp)
         if rng.random() < 0.3:
             check_line(sub, successor(rng, inp)[0])      # judged by the oracle like any other call
     for _ in range(n_angle):
         inp = gen_line(rng)
+        if rng.random() < 0.2:
+            same_digits_in_several_classes(sub, rng, inp)
         if rng.random() < 0.5:
             check_history(sub, inp, rng)
         # angle classes carry a finite resolution; keep the inputs inside the closed domain after conversion
